@@ -18,6 +18,7 @@ def tokB (id : Nat) : Msg → Option Tok
   | .cs _ => some .cs
   | .raa => some .raa
   | .add _ _ => none
+  | .fee _ => none
 
 def cfgA (s : Sys) (id : Nat) : Cfg :=
   { o := stOut s.a.outb id, i := stIn s.b.inb id,
@@ -66,11 +67,17 @@ theorem tokB_fulfills (id : Nat) (ok : Bool) (f : Nat → Msg) (hf : ∀ x, tokB
     · have : ¬ id = x := fun h => e h.symm
       simp [e, this, ih hxs]
 
+theorem tokF_feeMsgs (id : Nat) (n : Node) : n.feeMsgs.filterMap (tokF id) = [] := by
+  unfold Node.feeMsgs; split <;> rfl
+theorem tokB_feeMsgs (id : Nat) (n : Node) : n.feeMsgs.filterMap (tokB id) = [] := by
+  unfold Node.feeMsgs; split <;> rfl
+
 theorem tokF_batch (n : Node) (adds fu fa : List Nat) (id : Nat) :
     (batchOf n adds fu fa).filterMap (tokF id) =
       (if n.nextOutId ≤ id ∧ id < n.nextOutId + adds.length then [Tok.add] else []) ++ [Tok.cs] := by
   unfold batchOf
-  rw [List.append_assoc (mkAdds _ _), List.filterMap_append, List.filterMap_append, tokF_mkAdds, tokF_removals]
+  rw [List.append_assoc n.feeMsgs, List.append_assoc n.feeMsgs, List.append_assoc n.feeMsgs, List.filterMap_append, tokF_feeMsgs,
+    List.nil_append, List.append_assoc (mkAdds _ _), List.filterMap_append, List.filterMap_append, tokF_mkAdds, tokF_removals]
   simp [tokF]
 
 theorem tokB_batch (n : Node) (adds fu fa : List Nat) (hn : (fu ++ fa).Nodup) (id : Nat) :
@@ -78,7 +85,7 @@ theorem tokB_batch (n : Node) (adds fu fa : List Nat) (hn : (fu ++ fa).Nodup) (i
       (if id ∈ fu then [Tok.rem true] else []) ++ (if id ∈ fa then [Tok.rem false] else []) ++ [Tok.cs] := by
   unfold batchOf
   obtain ⟨h1, h2, _⟩ := List.nodup_append.1 hn
-  rw [List.filterMap_append, List.filterMap_append, List.filterMap_append, tokB_mkAdds,
+  rw [List.filterMap_append, List.filterMap_append, List.filterMap_append, List.filterMap_append, tokB_feeMsgs, tokB_mkAdds,
     tokB_fulfills id true Msg.fulfill (fun x => rfl) fu h1, tokB_fulfills id false Msg.fail (fun x => rfl) fa h2]
   simp [tokB]
 
@@ -118,6 +125,8 @@ theorem good_of_moved {c c' : Cfg} (hc : good c = true) (hm : Moved c c') : good
 theorem cfgA_commit_true {s s' : Sys} {adds fu fa : List Nat} (hb : Base s)
     (h : step s (.commit true adds fu fa) = some s') (id : Nat) : Moved (cfgA s id) (cfgA s' id) := by
   have hfwd := fullAB_commit_true h
+  have hbwd : s'.fullBA = s.fullBA :=
+    fullAB_commit_false (s := s.swap) (s' := s'.swap) (by have := step_swap s (.commit true adds fu fa); rw [h] at this; exact this)
   obtain ⟨_, hp, n, ms, hc, e⟩ := step_commit_true h
   obtain ⟨haw, _, en, ems⟩ := commit_some hc
   subst e; subst en; subst ems
@@ -126,14 +135,14 @@ theorem cfgA_commit_true {s s' : Sys} {adds fu fa : List Nat} (hb : Base s)
   · refine ⟨mCommitO true, by simp [moves], ?_⟩
     have ho : stOut s.a.outb id = none := stOut_none_of_bound hb.ok.bOut hnew.1
     simp only [mCommitO, cfgA, haw, ho, Option.isSome_none, Bool.false_eq_true, if_false, if_true, Option.some.injEq]
-    rw [hfwd, List.filterMap_append, tokF_batch, if_pos hnew]
+    rw [hfwd, hbwd, List.filterMap_append, tokF_batch, if_pos hnew]
     congr 1
     symm
     show stOut (s.a.built adds fu fa).outb id = _
     rw [stOut_built _ hb.ok, if_pos hnew]
   · refine ⟨mCommitO false, by simp [moves], ?_⟩
     simp only [mCommitO, cfgA, haw, Bool.false_eq_true, if_false, Option.some.injEq]
-    rw [hfwd, List.filterMap_append, tokF_batch, if_neg hnew]
+    rw [hfwd, hbwd, List.filterMap_append, tokF_batch, if_neg hnew]
     congr 1
     symm
     show stOut (s.a.built adds fu fa).outb id = _
@@ -143,6 +152,7 @@ theorem cfgA_commit_false {s s' : Sys} {adds fu fa : List Nat} (hb : Base s.swap
     (h : step s (.commit false adds fu fa) = some s') (id : Nat) : Moved (cfgA s id) (cfgA s' id) := by
   have hbwd : s'.fullBA = s.fullBA ++ batchOf s.b adds fu fa :=
     fullAB_commit_true (s := s.swap) (s' := s'.swap) (by have := step_swap s (.commit false adds fu fa); rw [h] at this; exact this)
+  have hfwd := fullAB_commit_false h
   obtain ⟨_, hp, n, ms, hc, e⟩ := step_commit_false h
   obtain ⟨haw, hcom, en, ems⟩ := commit_some hc
   subst e; subst en; subst ems
@@ -159,7 +169,7 @@ theorem cfgA_commit_false {s s' : Sys} {adds fu fa : List Nat} (hb : Base s.swap
     refine ⟨mCommitI (some false), by simp [moves], ?_⟩
     have hcm := hcom' (List.mem_append.2 (Or.inr hfa))
     simp only [mCommitI, cfgA, haw, hcm, Bool.false_eq_true, if_false, if_true, Option.some.injEq]
-    rw [hbwd, List.filterMap_append, tokB_batch _ _ _ _ hn, if_pos hfa, if_neg hfu]
+    rw [hbwd, hfwd, List.filterMap_append, tokB_batch _ _ _ _ hn, if_pos hfa, if_neg hfu]
     congr 1
     symm
     show stIn (s.b.built adds fu fa).inb id = _
@@ -168,14 +178,14 @@ theorem cfgA_commit_false {s s' : Sys} {adds fu fa : List Nat} (hb : Base s.swap
     · refine ⟨mCommitI (some true), by simp [moves], ?_⟩
       have hcm := hcom' (List.mem_append.2 (Or.inl hfu))
       simp only [mCommitI, cfgA, haw, hcm, Bool.false_eq_true, if_false, if_true, Option.some.injEq]
-      rw [hbwd, List.filterMap_append, tokB_batch _ _ _ _ hn, if_pos hfu, if_neg hfa]
+      rw [hbwd, hfwd, List.filterMap_append, tokB_batch _ _ _ _ hn, if_pos hfu, if_neg hfa]
       congr 1
       symm
       show stIn (s.b.built adds fu fa).inb id = _
       rw [hi, if_neg hfa, if_pos hfu, hcm]; rfl
     · refine ⟨mCommitI none, by simp [moves], ?_⟩
       simp only [mCommitI, cfgA, haw, Bool.false_eq_true, if_false, Option.some.injEq]
-      rw [hbwd, List.filterMap_append, tokB_batch _ _ _ _ hn, if_neg hfu, if_neg hfa]
+      rw [hbwd, hfwd, List.filterMap_append, tokB_batch _ _ _ _ hn, if_neg hfu, if_neg hfa]
       congr 1
       symm
       show stIn (s.b.built adds fu fa).inb id = _
@@ -222,8 +232,8 @@ theorem cfgA_recv_true_precise {s s' : Sys} (hb : Base s) (hb' : Base s.swap) (h
        (∃ t, tokB id m = some t ∧ (cfgA s id).bwd.head? = some t ∧ mRecvO (cfgA s id) = some (cfgA s' id))) := by
   obtain ⟨hpa, m, rest, n, okb, hq, hm, e⟩ := step_recv_true h
   refine ⟨m, rest, hq, ?_⟩
-  have hpop : s.fullBA = m :: s'.fullBA := by rw [e]; exact fullBA_pop_recv_true hb' hq n _
-  have hfw : s'.fullAB = s.fullAB ++ owedFor m := by rw [e]; exact fullAB_after_recv_true hb hpa _ hm
+  have hpop : s.fullBA = m :: s'.fullBA := by rw [e]; exact fullBA_pop_recv_true hb' hq n _ _
+  have hfw : s'.fullAB = s.fullAB ++ owedFor m := by rw [e]; exact fullAB_after_recv_true hb hpa _ _ hm
   have hsa : s'.a = n := by rw [e]
   have hsb : s'.b = s.b := by rw [e]
   have ci : (cfgA s' id).i = (cfgA s id).i := by show stIn s'.b.inb id = _; rw [hsb]; rfl
@@ -240,6 +250,10 @@ theorem cfgA_recv_true_precise {s s' : Sys} (hb : Base s) (hb' : Base s.swap) (h
   cases m with
   | add id' amt =>
     obtain ⟨_, _, en⟩ := onMsg_add hm
+    left
+    refine ⟨rfl, Cfg.ext' (by rw [co, en]; rfl) ci (by rw [cfwd]; simp [owedFor]) (by rw [cbwd]; rfl) (by rw [cawO, en]; rfl) cawI⟩
+  | fee f =>
+    obtain ⟨_, _, en⟩ := onMsg_fee hm
     left
     refine ⟨rfl, Cfg.ext' (by rw [co, en]; rfl) ci (by rw [cfwd]; simp [owedFor]) (by rw [cbwd]; rfl) (by rw [cawO, en]; rfl) cawI⟩
   | fulfill id' =>
@@ -320,8 +334,8 @@ theorem cfgA_recv_false_precise {s s' : Sys} (hb : Base s) (hb' : Base s.swap) (
   obtain ⟨hpb, m, rest, n, okb, hq, hm, e⟩ := step_recv_false h
   refine ⟨m, rest, hq, ?_⟩
   have hok : NodeOK s.b := hb'.ok
-  have hpop : s.fullAB = m :: s'.fullAB := by rw [e]; exact fullAB_pop_recv_false hb hq n _
-  have hbw : s'.fullBA = s.fullBA ++ owedFor m := by rw [e]; exact fullBA_after_recv_false hb' hpb _ hm
+  have hpop : s.fullAB = m :: s'.fullAB := by rw [e]; exact fullAB_pop_recv_false hb hq n _ _
+  have hbw : s'.fullBA = s.fullBA ++ owedFor m := by rw [e]; exact fullBA_after_recv_false hb' hpb _ _ hm
   have hsa : s'.a = s.a := by rw [e]
   have hsb : s'.b = n := by rw [e]
   have co : (cfgA s' id).o = (cfgA s id).o := by show stOut s'.a.outb id = _; rw [hsa]; rfl
@@ -366,6 +380,10 @@ theorem cfgA_recv_false_precise {s s' : Sys} (hb : Base s) (hb' : Base s.swap) (
     exact ⟨rfl, Cfg.ext' co (by rw [ci, en]; rfl) (by rw [cfwd]; rfl) (by rw [cbwd]; simp [owedFor]) cawO (by rw [cawI, en]; rfl)⟩
   | fail id' =>
     obtain ⟨_, _, en⟩ := onMsg_fail hm
+    left
+    exact ⟨rfl, Cfg.ext' co (by rw [ci, en]; rfl) (by rw [cfwd]; rfl) (by rw [cbwd]; simp [owedFor]) cawO (by rw [cawI, en]; rfl)⟩
+  | fee f =>
+    obtain ⟨_, _, en⟩ := onMsg_fee hm
     left
     exact ⟨rfl, Cfg.ext' co (by rw [ci, en]; rfl) (by rw [cfwd]; rfl) (by rw [cbwd]; simp [owedFor]) cawO (by rw [cawI, en]; rfl)⟩
   | cs c =>
@@ -491,6 +509,11 @@ theorem tokF_profile (id : Nat) (l : List Msg) :
       · simp only [List.filterMap_cons, tokF]; simpa [hasCs] using h1
       · simp only [List.filterMap_cons, tokF, countRaa_cons]; simpa using h2
       · simp only [List.filterMap_cons, tokF]; exact h3
+    | fee id' =>
+      refine ⟨?_, ?_, ?_⟩
+      · simp only [List.filterMap_cons, tokF]; simpa [hasCs] using h1
+      · simp only [List.filterMap_cons, tokF, countRaa_cons]; simpa using h2
+      · simp only [List.filterMap_cons, tokF]; exact h3
 
 theorem tokB_profile (id : Nat) (l : List Msg) :
     (l.filterMap (tokB id)).contains .cs = hasCs l ∧
@@ -536,6 +559,11 @@ theorem tokB_profile (id : Nat) (l : List Msg) :
         · simp only [List.filterMap_cons, tokB, if_neg e]; simpa [hasCs] using h1
         · simp only [List.filterMap_cons, tokB, if_neg e, countRaa_cons]; simpa using h2
         · simp only [List.filterMap_cons, tokB, if_neg e]; exact h3
+    | fee f =>
+      refine ⟨?_, ?_, ?_⟩
+      · simp only [List.filterMap_cons, tokB]; simpa [hasCs] using h1
+      · simp only [List.filterMap_cons, tokB, countRaa_cons]; simpa using h2
+      · simp only [List.filterMap_cons, tokB]; exact h3
 
 theorem fm_none {α : Type} {key : α → Nat} (l : List α) (p : α → Bool) (mk : α → Msg) (tk : Msg → Option Tok) (t : Tok) (id : Nat)
     (hmk : ∀ h, tk (mk h) = if key h = id then some t else none) (hno : ∀ h ∈ l, key h ≠ id) :
@@ -577,7 +605,7 @@ theorem tokB_replicate (id k : Nat) : (List.replicate k Msg.raa).filterMap (tokB
 theorem tokF_lastBatch {n : Node} (ok : NodeOK n) (id : Nat) :
     n.lastBatch.filterMap (tokF id) = (if stOut n.outb id = some .localAnnounced then [.add] else []) ++ [.cs] := by
   unfold Node.lastBatch
-  rw [List.filterMap_append, List.filterMap_append, List.filterMap_append,
+  rw [List.filterMap_append, List.filterMap_append, List.filterMap_append, List.filterMap_append, tokF_feeMsgs, List.nil_append,
     fm_sorted ok.sOut (fun h => h.st == .localAnnounced) (fun h => Msg.add h.id h.amt) (tokF id) .add id (fun h => rfl)]
   have h2 : ((n.inb.filter (fun h => h.st == .localRemoved true)).map (fun h => Msg.fulfill h.id)).filterMap (tokF id) = [] := by
     rw [List.filterMap_eq_nil_iff]; intro m hm; obtain ⟨h, _, e⟩ := List.mem_map.1 hm; rw [← e]; rfl
@@ -597,7 +625,7 @@ theorem tokB_lastBatch {n : Node} (ok : NodeOK n) (id : Nat) :
     n.lastBatch.filterMap (tokB id)
       = (match lrOf (stIn n.inb id) with | some ok => [.rem ok] | none => []) ++ [.cs] := by
   unfold Node.lastBatch
-  rw [List.filterMap_append, List.filterMap_append, List.filterMap_append,
+  rw [List.filterMap_append, List.filterMap_append, List.filterMap_append, List.filterMap_append, tokB_feeMsgs, List.nil_append,
     fm_sorted ok.sIn (fun h => h.st == .localRemoved true) (fun h => Msg.fulfill h.id) (tokB id) (.rem true) id (fun h => rfl),
     fm_sorted ok.sIn (fun h => h.st == .localRemoved false) (fun h => Msg.fail h.id) (tokB id) (.rem false) id (fun h => rfl)]
   have h1 : ((n.outb.filter (fun h => h.st == .localAnnounced)).map (fun h => Msg.add h.id h.amt)).filterMap (tokB id) = [] := by
@@ -649,6 +677,7 @@ theorem old_profile {s : Sys} (hb : Base s) (hb' : Base s.swap) :
             | add _ _ => exact ih (by simpa [hasCs] using hl)
             | fulfill _ => exact ih (by simpa [hasCs] using hl)
             | fail _ => exact ih (by simpa [hasCs] using hl)
+            | fee _ => exact ih (by simpa [hasCs] using hl)
         exact key _ this
       rw [hr]; symm; simp; omega
     · rw [hb.i7 h]
@@ -926,6 +955,22 @@ theorem cfgA_disconnect {s s' : Sys} (hb : Base s) (hb' : Base s.swap) (h : step
   · show s.b.awaitingRaa = s'.b.awaitingRaa
     rw [hsb, (pause_fields s.b).2.1]
 
+theorem cfgA_fee_true {s s' : Sys} {f : Nat} (h : step s (.fee true f) = some s') (id : Nat) : cfgA s' id = cfgA s id := by
+  have hf := fullAB_fee_true h
+  have hf' : s'.fullBA = s.fullBA :=
+    fullAB_fee_false (s := s.swap) (s' := s'.swap) (by have := step_swap s (.fee true f); rw [h] at this; exact this)
+  obtain ⟨_, _, _, _, _, e⟩ := step_fee_true h
+  refine Cfg.ext' ?_ ?_ (by show List.filterMap _ _ = List.filterMap _ _; rw [hf])
+    (by show List.filterMap _ _ = List.filterMap _ _; rw [hf']) ?_ ?_ <;> rw [e] <;> rfl
+
+theorem cfgA_fee_false {s s' : Sys} {f : Nat} (h : step s (.fee false f) = some s') (id : Nat) : cfgA s' id = cfgA s id := by
+  have hf := fullAB_fee_false h
+  have hf' : s'.fullBA = s.fullBA :=
+    fullAB_fee_true (s := s.swap) (s' := s'.swap) (by have := step_swap s (.fee false f); rw [h] at this; exact this)
+  obtain ⟨_, _, _, _, _, e⟩ := step_fee_false h
+  refine Cfg.ext' ?_ ?_ (by show List.filterMap _ _ = List.filterMap _ _; rw [hf])
+    (by show List.filterMap _ _ = List.filterMap _ _; rw [hf']) ?_ ?_ <;> rw [e] <;> rfl
+
 /-- every guarded step moves every HTLC configuration (of the a-offered family) along the abstract system -/
 theorem cfgA_step {s s' : Sys} {e : Ev} (hb : Base s) (hb' : Base s.swap) (h : stepG s e = some s') (id : Nat)
     (hg : good (cfgA s id) = true) : Moved (cfgA s id) (cfgA s' id) := by
@@ -954,13 +999,17 @@ theorem cfgA_step {s s' : Sys} {e : Ev} (hb : Base s) (hb' : Base s.swap) (h : s
     cases y
     · exact Or.inl (cfgA_reest_false hb' h id)
     · exact Or.inl (cfgA_reest_true hb h id)
+  | fee x f =>
+    cases x
+    · exact Or.inl (cfgA_fee_false h id)
+    · exact Or.inl (cfgA_fee_true h id)
 
 /-- the per-HTLC invariant: every id has a good configuration (for the HTLCs `a` offers) -/
 def GoodA (s : Sys) : Prop := ∀ id, good (cfgA s id) = true
 
-theorem GoodA.init (va vb : Nat) : GoodA (Sys.init va vb) := by
+theorem GoodA.init (va vb f0 : Nat) : GoodA (Sys.init va vb f0) := by
   intro id
-  have : cfgA (Sys.init va vb) id = Cfg.init := rfl
+  have : cfgA (Sys.init va vb f0) id = Cfg.init := rfl
   rw [this]; exact good_init
 
 theorem GoodA.step {s s' : Sys} {e : Ev} (hg : GoodA s) (hb : Base s) (hb' : Base s.swap)
